@@ -9,10 +9,14 @@
   the lifting lemmas `prodCand2_lift` / `prodCand3_lift` show that on every cell with a positive joint base
   rate this IS `(P - B)/A` (no well-formedness needed, only `a0 i ≠ 0`, `a1 j ≠ 0`), so the abstract cell
   lemma is stated for an arbitrary candidate function that agrees with `(P - B)/A` on those cells.
+  Since repair b817f74 every joint mass `P - A û` is clamped at zero; under `Cell` it is `≥ B ≥ 0` (`bJ_nonneg`;
+  the filter is the exact test `A > 0`, no guard band is involved), so the clamp is the identity in `rawOf_lift`.
   No property statements here.
 -/
 import SLV.Refine.Lift
 import SLV.Refine.MinLemmas
+import SLV.Refine.ClampLemmas
+import SLV.Refine.C01Lemmas
 import SLV.Model.Prod
 import SLV.Props.C09
 import Mathlib.Data.Finset.Max
@@ -251,7 +255,9 @@ def rawOf {α : Type} [Scalar α] (p a : Tab α N) (c : Fin N → α) : Opinion 
   let u := Tab.reduceL Scalar.min
     (((List.finRange N).filter fun k => Scalar.gt a[k] Scalar.zero).map c)
     (Tab.nanOf α)
-  let b : Tab α N := Vector.ofFn fun k => p[k] - a[k] * u
+  let b : Tab α N := Vector.ofFn fun k =>
+    let b := p[k] - a[k] * u
+    if Scalar.lt b Scalar.zero then Scalar.zero else b
   ⟨b, u, a⟩
 
 /-- the candidate entry of a cell with `A > 0` is finite -/
@@ -332,7 +338,47 @@ theorem rawOf_lift (h : Cell P A B) (c : Fin N → XQ f)
   simp only [liftT_getElem] at e ⊢
   rw [e]
   simp only [XQ.mul_fin, XQ.sub_fin]
+  -- every un-clamped joint mass is `bJ k ≥ 0` (`bJ_nonneg`): the clamp of repair b817f74 is the identity here
+  have hcl : ∀ k : Fin N, (if Scalar.lt (XQ.fin (P k - A k * uhat P A B) : XQ f) Scalar.zero then Scalar.zero
+      else XQ.fin (P k - A k * uhat P A B)) = (XQ.fin (bJ P A B k) : XQ f) :=
+    fun k => XQ.clamp_fin_nonneg _ (bJ_nonneg h k)
+  simp only [hcl]
   rfl
+
+/-- the shared computation as it was before repair b817f74 (`Pinned.product2NoClamp` / `product3NoClamp`): the joint
+    masses `p - a * u` are not clamped -/
+def rawOfNoClamp {α : Type} [Scalar α] (p a : Tab α N) (c : Fin N → α) : Opinion α N :=
+  let u := Tab.reduceL Scalar.min
+    (((List.finRange N).filter fun k => Scalar.gt a[k] Scalar.zero).map c)
+    (Tab.nanOf α)
+  let b : Tab α N := Vector.ofFn fun k => p[k] - a[k] * u
+  ⟨b, u, a⟩
+
+/-- the abstract cell lemma for the un-clamped text: the same closed form -/
+theorem rawOfNoClamp_lift (h : Cell P A B) (c : Fin N → XQ f)
+    (hc : ∀ k, 0 < A k → c k = XQ.fin (ucand P A B k)) :
+    rawOfNoClamp (liftT P : Tab (XQ f) N) (liftT A) c
+      = ⟨liftT (bJ P A B), XQ.fin (uhat P A B), liftT A⟩ := by
+  unfold rawOfNoClamp
+  have e := reduceL_cell (f := f) h c hc
+  simp only [liftT_getElem] at e ⊢
+  rw [e]
+  simp only [XQ.mul_fin, XQ.sub_fin]
+  rfl
+
+/-- under `Cell` the clamp of repair b817f74 is idle -/
+theorem rawOf_eq_noClamp (h : Cell P A B) (c : Fin N → XQ f)
+    (hc : ∀ k, 0 < A k → c k = XQ.fin (ucand P A B k)) :
+    rawOf (liftT P : Tab (XQ f) N) (liftT A) c = rawOfNoClamp (liftT P) (liftT A) c := by
+  rw [rawOf_lift h c hc, rawOfNoClamp_lift h c hc]
+
+/-- every joint mass of the shared computation is a clamped value: it never compares below zero, whatever the
+    tables and candidates (no well-formedness; `±∞` and NaN included) -/
+theorem rawOf_b_notNeg (p a : Tab (XQ f) N) (c : Fin N → XQ f) (k : Fin N) :
+    XQ.NotNeg (rawOf p a c).b[k] := by
+  unfold rawOf
+  simp only [Fin.getElem_fin, Vector.getElem_ofFn]
+  exact XQ.notNeg_clamp _
 
 /-- without any well-formedness: if some cell has a positive base rate and the candidates of those cells are
     finite, the uncertainty of the raw product is the least of them -/
@@ -463,6 +509,15 @@ theorem product2Raw_lift (h0 : WF b0 u0 a0) (h1 : WF b1 u1 a1) :
   rw [C09_projection h0, C09_projection h1, outer2_lift, outer2_lift]
   exact rawOf_lift (cell2 h0 h1) _ (fun k hk => prodCand2_lift b0 u0 a0 b1 u1 a1 k (ne_of_gt hk))
 
+/-- the un-clamped text of before repair b817f74 has the same closed form on well-formed operands -/
+theorem product2NoClamp_lift (h0 : WF b0 u0 a0) (h1 : WF b1 u1 a1) :
+    Pinned.product2NoClamp (⟨liftT b0, XQ.fin u0, liftT a0⟩ : Opinion (XQ f) n0) ⟨liftT b1, XQ.fin u1, liftT a1⟩
+      = ⟨liftT (bJ2 b0 u0 a0 b1 u1 a1), XQ.fin (uhat2 b0 u0 a0 b1 u1 a1), liftT (A2 a0 a1)⟩ := by
+  show rawOfNoClamp (outer2 (SLV.projection _ _ _) (SLV.projection _ _ _)) (outer2 _ _)
+    (fun k => prodCand2 _ _ (idx2 k)) = _
+  rw [C09_projection h0, C09_projection h1, outer2_lift, outer2_lift]
+  exact rawOfNoClamp_lift (cell2 h0 h1) _ (fun k hk => prodCand2_lift b0 u0 a0 b1 u1 a1 k (ne_of_gt hk))
+
 end two
 
 /-! ### three factors -/
@@ -584,6 +639,69 @@ theorem product3Raw_lift (h0 : WF b0 u0 a0) (h1 : WF b1 u1 a1) (h2 : WF b2 u2 a2
   exact rawOf_lift (cell3 h0 h1 h2) _
     (fun k hk => prodCand3_lift b0 u0 a0 b1 u1 a1 b2 u2 a2 k (ne_of_gt hk))
 
+theorem product3NoClamp_lift (h0 : WF b0 u0 a0) (h1 : WF b1 u1 a1) (h2 : WF b2 u2 a2) :
+    Pinned.product3NoClamp (⟨liftT b0, XQ.fin u0, liftT a0⟩ : Opinion (XQ f) n0) ⟨liftT b1, XQ.fin u1, liftT a1⟩
+        ⟨liftT b2, XQ.fin u2, liftT a2⟩
+      = ⟨liftT (bJ3 b0 u0 a0 b1 u1 a1 b2 u2 a2), XQ.fin (uhat3 b0 u0 a0 b1 u1 a1 b2 u2 a2),
+          liftT (A3 a0 a1 a2)⟩ := by
+  show rawOfNoClamp (outer3 (SLV.projection _ _ _) (SLV.projection _ _ _) (SLV.projection _ _ _))
+    (outer3 _ _ _) (fun k => prodCand3 _ _ _ (idx3 k)) = _
+  rw [C09_projection h0, C09_projection h1, C09_projection h2, outer3_lift, outer3_lift]
+  exact rawOfNoClamp_lift (cell3 h0 h1 h2) _
+    (fun k hk => prodCand3_lift b0 u0 a0 b1 u1 a1 b2 u2 a2 k (ne_of_gt hk))
+
 end three
+
+/-! ### the checked constructor on masses none of which compares below zero (repair b817f74) -/
+
+open SLV.Props.C01 in
+/-- `check_simplex` answers `b[]` exactly when some mass is not a finite value of the band `[-ε, 1+4ε]` -/
+theorem checkSimplex_b_iff {n : Nat} (b : Tab (XQ f) n) (u : XQ f) :
+    checkSimplex b u = .error .b ↔ ¬ ∀ i : Fin n, inBand b[i] := by
+  constructor
+  · intro h hb
+    obtain ⟨bq, rfl, hbq⟩ := (all_inBand_iff b).1 hb
+    by_cases hu : inBand u
+    · obtain ⟨uq, rfl, huq⟩ := hu
+      by_cases hs : oneBand f (∑ i, bq i + uq)
+      · rw [checkSimplex_ok bq uq hbq huq hs] at h; cases h
+      · rw [checkSimplex_sum bq uq hbq huq hs] at h; cases h
+    · rw [checkSimplex_u bq u hbq hu] at h; cases h
+  · exact checkSimplex_b b u
+
+open SLV.Props.C01 in
+/-- what `Opinion::new` can still answer with the label `b[]` when no mass compares below zero: a NaN mass, an
+    infinite one, or one above `1 + 4ε` -/
+theorem tryNew_b_of_notNeg {n : Nat} (b a : Tab (XQ f) n) (u : XQ f) (hb : ∀ i : Fin n, XQ.NotNeg b[i])
+    (h : Opinion.tryNew b u a = .error .b) :
+    ∃ i : Fin n, b[i] = XQ.nan ∨ b[i] = XQ.pinf ∨ ∃ q : ℚ, 1 + 4 * f.eps < q ∧ b[i] = XQ.fin q := by
+  have hcs : checkSimplex b u = .error .b := by
+    rcases unit_ok_or_error (checkSimplex b u) with e | ⟨l, e⟩
+    · rcases unit_ok_or_error (checkBaseRate a) with e2 | ⟨l2, e2⟩
+      · rw [opinionTryNew_ok e e2] at h; cases h
+      · rw [opinionTryNew_err2 e e2] at h
+        cases h
+        rcases checkBaseRate_label a _ e2 with h' | h' <;> cases h'
+    · rw [opinionTryNew_err1 e] at h; cases h; exact e
+  have hne := (checkSimplex_b_iff b u).1 hcs
+  obtain ⟨i, hi⟩ := not_forall.mp hne
+  refine ⟨i, ?_⟩
+  rcases (XQ.notNeg_iff _).1 (hb i) with e | e | ⟨q, hq, e⟩
+  · exact Or.inl e
+  · exact Or.inr (Or.inl e)
+  · refine Or.inr (Or.inr ⟨q, ?_, e⟩)
+    by_contra hle
+    have he := XQ.eps_pos f
+    exact hi ⟨q, e, by linarith, not_lt.mp hle⟩
+
+/-- a checked constructor that accepts returns its arguments -/
+theorem tryNew_ok_eq {n : Nat} {b a : Tab (XQ f) n} {u : XQ f} {w : Opinion (XQ f) n}
+    (h : Opinion.tryNew b u a = .ok w) : w = ⟨b, u, a⟩ := by
+  unfold Opinion.tryNew at h
+  split at h
+  · cases h
+  · split at h
+    · cases h
+    · cases h; rfl
 
 end SLV.C06
